@@ -1746,3 +1746,43 @@ def found_or_empty_rule(index, rep, rid, modules):
                               "%s fetches `%s` with `%s` and then tests it by truthiness: a %s defines __len__, so an EMPTY one is falsy and is reported as 'not found' - an empty tree list, or trees that carry no taxa, cannot be read back from the NeXML the library itself wrote" % (f.qualname, t.ast.id, norm(looked[t.ast.id].value)[:50], SIZED_BY_NAME[t.ast.id.lstrip("_")]))
             n += len(looked)
     return n
+
+
+def bitmask_algebra_rule(index, rep, rid, modules):
+    """Bitmasks are sets: they are combined with | & ^ ~ and shifts, never with + - or sum() - addition agrees with
+    union only while the operands are disjoint, and a taxon named twice (or two overlapping groups) breaks that.
+    `x - 1` / `x + 1` with the constant 1 (lowest-bit tricks) is bit arithmetic and allowed."""
+    def isbm(e):
+        if isinstance(e, ast.Name):
+            return e.id.endswith("bitmask") or e.id.endswith("_mask")
+        if isinstance(e, ast.Attribute):
+            return e.attr.endswith("bitmask") or e.attr.endswith("_mask")
+        if isinstance(e, ast.Call):
+            return call_name(e).endswith("bitmask")
+        return False
+
+    def one(e):
+        return isinstance(e, ast.Constant) and e.value == 1
+    n = 0
+    for m in modules:
+        for fi in index.functions_in_module(m):
+            for x in walk_no_nested(fi.node):
+                bad = None
+                if isinstance(x, ast.BinOp) and (isbm(x.left) or isbm(x.right)):
+                    n += 1
+                    if isinstance(x.op, (ast.Add, ast.Sub, ast.Mult)) and not one(x.left) and not one(x.right):
+                        bad = norm(x)
+                elif isinstance(x, ast.AugAssign) and (isbm(x.target) or isbm(x.value)):
+                    n += 1
+                    if isinstance(x.op, (ast.Add, ast.Sub, ast.Mult)) and not one(x.value):
+                        bad = norm_stmt(x)
+                elif isinstance(x, ast.Call) and call_name(x) == "sum" and x.args:
+                    a = x.args[0]
+                    elt = a.elt if isinstance(a, (ast.GeneratorExp, ast.ListComp, ast.SetComp)) else a
+                    if isbm(elt) or (isinstance(a, (ast.Name, ast.Attribute)) and norm(a).endswith("bitmasks")):
+                        n += 1
+                        bad = norm(x)
+                if bad is not None:
+                    rep.check(False, rid, fi.qualname, "bitmasks combined arithmetically: `%s`" % bad[:60], fn_where(fi, x), "",
+                              "%s computes `%s`: a bitmask is a set of taxa and is combined with | (union), & and ^; addition gives the union only while no bit occurs twice, so a taxon named twice - or two groups that overlap - carries into the neighbouring taxon's bit and the mask describes a different set of taxa" % (fi.qualname, bad[:80]))
+    return n
